@@ -46,8 +46,10 @@ class Insert(ASTNode):
     def to_value(self, val):
         if isinstance(val, ASTNode) :
             return val.to_string()
-        if isinstance(val, str):
-            # repr() is a Python literal, not an SQL one
+        if val is None:
+            return 'NULL'
+        if isinstance(val, (str, int, float)):
+            # repr() is a Python literal, not an SQL one (strings; floats like 1e-05, which the lexers read as `1e - 05`)
             return Constant(val).to_string()
         return repr(val)
 
